@@ -2,6 +2,7 @@
    Statements only; every proof is [exact <lemma>]. *)
 From FMP Require Import Base.Bytes Model.Generated Model.Msgpack Model.Frame Model.Reader
      Proofs.MsgpackProofs Proofs.ReaderProofs Proofs.FrameProofs.
+From FMP Require Import Model.Paths Proofs.PathsC04.
 Open Scope N_scope.
 
 (* the buffered reader with looping consumers delivers exactly the next n bytes of the stream, however the
@@ -63,6 +64,10 @@ Example ex_bytewise : run_frames_ch 5 ex_env 100 (of_chunks (map (fun b => [b]) 
                       = [OCancel 5 [112; 113]; OCancel 6 [122]; OErr EEOF].
 Proof. vm_compute. reflexivity. Qed.
 
+(* on every path through packetizer.NextFrame as it is in the source now, once a frame reader exists the frame is drained exactly once, after everything else, whatever the outcome (bad header byte, decode error, unknown method, success); drain is one Discard of what remains and nothing else *)
+Theorem C04_source_every_frame_drained_once : nextframe_paths_drain_always = true.
+Proof. exact paths_nextframe_drain_always. Qed.
+
 Print Assumptions C04_read_full_abs.
 Print Assumptions C04_next_frame_chunked_refines_flat.
 Print Assumptions C04_run_chunked_refines_flat.
@@ -71,3 +76,4 @@ Print Assumptions C04_of_chunks.
 Print Assumptions C04_exact_consumption.
 Print Assumptions C04_outcome_is_local.
 Print Assumptions C04_resync_step.
+Print Assumptions C04_source_every_frame_drained_once.
